@@ -80,9 +80,16 @@ class ComputeTypeVisitor(Visitor.DefaultVisitor):
         ctx.pop()
 
     def v_IfStatement(self, stmt, ctx):
-        ctx.append(types.Scope(ctx[-1]))
-        stmt.AcceptVisitor(self, ctx)
-        ctx.pop()
+        # One scope per branch, see ValidateVariableNames
+        for part in (
+            stmt.GetCondition(),
+            stmt.GetTruePath(),
+            stmt.GetElsePath(),
+        ):
+            if part is not None:
+                ctx.append(types.Scope(ctx[-1]))
+                self.v_Visit(part, ctx)
+                ctx.pop()
 
     def _GetClassScopeForMemberAccess(self, expr, scope):
         return scope.GetFieldType(expr.GetMemberAccess().GetParent().GetName())
